@@ -290,11 +290,11 @@ def run_case(case, policy=None, max_steps=200000):
             sn = stub.secnode
             out['errors'] = error_classes(sn.errors)
             out['modules'] = list(sn.modules)
+            out['edges'] = sorted([u, m.name] for u, mo in sn.modules.items() for m in mo.attachedModules.values())
             if out['exit'] is None:
                 # let every first round finish (virtual time), then shut down as Server.run does
                 total = sum((sp.get('delay') or 0) for sp in specs.values())
                 s.time.sleep(total + 1)
-                out['edges'] = sorted([u, m.name] for u, mo in sn.modules.items() for m in mo.attachedModules.values())
                 _ev('shutdownbegin')
                 sn.shutdown_modules()
         except vsched.SchedAbort:
@@ -367,7 +367,7 @@ def build_case(rng, n, edges, variant):
     """a configuration on the attachment graph `edges` over m0..m(n-1), decorated according to `variant`"""
     mods = []
     for i in range(n):
-        atts = [['a%d' % j, 'm%d' % j, rng.random() < 0.6, 0] for (u, j) in edges if u == i]
+        atts = [['a%d' % j, 'm%d' % j, j % 2 == 0, 0] for (u, j) in edges if u == i]   # a0, a2, a4 mandatory (few classes)
         touch_p = {'plain': 0.25, 'touchy': 0.8}.get(variant, 0.3)
         te = [a[0] for a in atts if rng.random() < touch_p / 2]
         ti = [a[0] for a in atts if rng.random() < touch_p]
@@ -376,9 +376,8 @@ def build_case(rng, n, edges, variant):
         writes = rng.choice([[], [], ['w0'], ['w1'], ['w0', 'w1']])
         mods.append(mkspec('m%d' % i, export=rng.random() < 0.7, poll=rng.random() < 0.7, writes=writes, atts=atts,
                            te=te, ti=ti))
-        if rng.random() < 0.25 and len(atts) < 5:
-            free = [a for a in ATT_NAMES if a not in [x[0] for x in atts]]
-            mods[-1]['atts'].append([rng.choice(free), None, False, 0])        # optional attachment left empty
+        if rng.random() < 0.25 and 'a4' not in [x[0] for x in atts]:
+            mods[-1]['atts'].append(['a4', None, False, 0])        # optional attachment left empty
     dyn = []
     if variant == 'fail' and mods:
         m = rng.choice(mods)
@@ -487,11 +486,12 @@ def requests_for(case, obs):
 
 def model_view(model):
     return {'modules': model['modules'], 'errors': model['errors'], 'ioDict': sorted(model['ioDict']),
-            'edges': sorted(model['edges']), 'log': canon_log(model['log'])}
+            'edges': sorted({tuple(e) for e in model['edges']}), 'log': canon_log(model['log'])}
 
 
 def impl_view(obs):
-    return {'modules': obs['modules'], 'errors': obs['errors'], 'ioDict': obs['ioDict'], 'edges': sorted(obs['edges']),
+    return {'modules': obs['modules'], 'errors': obs['errors'], 'ioDict': obs['ioDict'],
+            'edges': sorted({tuple(e) for e in obs['edges']}),
             'log': obs['log']}
 
 
@@ -579,7 +579,7 @@ def shrink(ctx, case, clause):
         _o, _m, j = judge_case(ctx, c)
         return clause in j.get('failed', [])
     try:
-        small = ddmin(features(case), fails, max_tests=150)
+        small = ddmin(features(case), fails, max_tests=100)
         c = rebuild(case, small)
         _o, _m, j = judge_case(ctx, c)
         if clause in j.get('failed', []):
@@ -592,6 +592,14 @@ def shrink(ctx, case, clause):
 def signature(case, clause, obs):
     """short stable description of what fails"""
     specs = case['mods'] + case.get('dyn', [])
+    if clause == 'attached_ready':
+        failed = {e[1] for e in obs['errors'] if e[0] == 'init'}
+        inits = set()
+        for e in obs['log']:
+            if e[0] == 'init':
+                inits.add(e[1])
+            if e[0] == 'get' and e[3] not in inits:
+                return 'C15:attached_ready:' + ('attached-module-failed-init' if e[3] in failed else 'other')
     edges = [(sp['name'], a[1]) for sp in specs for a in sp['atts'] if a[1]]
     names = {sp['name'] for sp in specs}
     idx = {n: i for i, n in enumerate(sorted(names))}
@@ -670,7 +678,7 @@ def run(ctx):
         c['_random_sched'] = True
         cases.append(('sched', c))
 
-    t_end = time.time() + (55 if ctx.tier == 'quick' else 14 * 60)
+    t_end = time.time() + (42 if ctx.tier == 'quick' else 13 * 60)
     reqs, metas = [], []
     for kind, case in cases:
         if time.time() > t_end:
@@ -685,7 +693,7 @@ def run(ctx):
         reqs += requests_for(case, obs)
         metas.append((kind, case, obs))
     answers = ctx.driver.batch(reqs, timeout=600)
-    shrunk = 0
+    seen_sigs = set()
     for j, (kind, case, obs) in enumerate(metas):
         model, judge = answers[2 * j], answers[2 * j + 1]
         if 'driver_error' in model or 'driver_error' in judge:
@@ -715,11 +723,14 @@ def run(ctx):
                     res.disagreements.append({'case': case, 'model': d.get('model'), 'impl': d.get('impl'),
                                               'where': {k: v for k, v in d.items() if k not in ('model', 'impl')}})
         for clause in judge['failed']:
-            small = case
-            if shrunk < 6:
-                shrunk += 1
-                small = shrink(ctx, case, clause)
+            sig0 = signature(case, clause, obs)
+            res.count('violation.' + sig0)
+            if sig0 in seen_sigs:
+                continue
+            seen_sigs.add(sig0)
+            small = shrink(ctx, case, clause)
             o2, _ = observe(small)
+            seen_sigs.add(signature(small, clause, o2))
             res.violations.append({'sig': signature(small, clause, o2),
                                    'what': f'{clause} broken: cfg={json.dumps(wire_cfg(small))} log={[" ".join(e) for e in o2["log"]]} '
                                            f'errors={o2["errors"]}',
